@@ -103,12 +103,13 @@ for _spec in [x for x in dcspec.SPECS if x != 'aliaserr']:     # (aliaserr serve
         if _spec == 'defer' and _g in ('plain', 'defaults', 'alias', 'required'):
             _marks = ['accept', 'deferred']
         for _base in ('Schema', 'DataClass'):
-            ob('%s/%s/%s' % (_spec, _g, _base), marks=_marks, budget=(100, 400), per_path=(15, 30),
+            ob('%s/%s/%s' % (_spec, _g, _base), marks=_marks, budget=(100, 400), per_path=(15, 30), exhaustive=(True, False),
                thorough_only=_g not in QUICK[_spec] or (_base == 'DataClass' and _g != 'plain') or (_g == 'alias' and _spec in ('io', 'depio')),
                bounds=bounds_text(_spec, _g, _base) + '; lookup strategy (default / data-first / field-first) solver-chosen; '
                       'outcome compared with the reference model: error kinds (fail-fast and collected), key view, '
                       'attribute view, getattr incl. deferred defaults, `in` for every spelling',
-               out='combinations of option groups; non-int field types; inheritance')(
+               out='combinations of option groups; non-int field types; inheritance; the thorough key vocabulary (7 / 8 keys) is explored within '
+                   'the budget (solver-driven, every path replayed), not exhausted: the exhaustive claim is the quick vocabulary')(
                 (lambda s, g, b: lambda V: _c05(V, s, g, b))(_spec, _g, _base))
 
 
